@@ -140,6 +140,9 @@ func (e *evidence) add(rec *record) {
 	if st.SyncPoints > 0 {
 		e.faults["syncpoint-runs"]++
 	}
+	if st.EnvReads > 0 && sc.EnvSeed != 0 {
+		e.faults["environment"]++
+	}
 	if sc.Sched.WritePreempt > 0 && st.Switches > 0 {
 		e.faults["preempt-before-write"]++
 	}
